@@ -88,6 +88,8 @@ class Unit:
         else:
             if is_sym(self.scale):
                 s = core.uf("POW", self.scale, p)
+            elif Q(self.scale) == 1:
+                s = Q(1)
             else:
                 raise UnsupportedByShim("fractional power of a unit")
         return self._mk(s, {k: v * p for k, v in self.dims.items()}, "(%s)**%s" % (self.name, p))
@@ -486,14 +488,23 @@ def module():
 # astropy.time
 # ------------------------------------------------------------------------------------------
 
+def _scale_offset(scale):
+    """days to add to a value on `scale` to obtain the TCB value: 0 for tcb, one symbolic constant per other scale
+    (the real offsets are time dependent; all that matters here is that they are not zero in general)"""
+    if scale in (None, "tcb"):
+        return 0
+    return core.real("offset_%s_to_tcb" % scale)
+
+
 class Time:
-    """BMJD model: one real per epoch; .tcb is the identity (inputs are taken as tcb), .mjd the
-    value, .jd = mjd + 2400000.5."""
+    """astropy.time.Time model: one real per epoch on a named scale; .tcb / .utc / .tt convert through a per-scale
+    offset, .mjd is the value on the object's own scale, .jd = mjd + 2400000.5.  Differences are taken on TCB."""
     __array_ufunc__ = None
     __hash__ = None
 
     def __init__(self, val, val2=None, format=None, scale=None, **kw):
         if isinstance(val, Time):
+            scale = scale or val.scale
             val = val._v
         if isinstance(val, (list, tuple, _np.ndarray)):
             val = symnp.array(val)
@@ -503,12 +514,21 @@ class Time:
             raise UnsupportedByShim("Time format %r" % format)
         self._v = val
         self.format = "mjd"
-        self.scale = scale or "tcb"
+        self.scale = scale or "utc"
+
+    def _to(self, scale):
+        if scale == self.scale:
+            return self
+        v = self._v + _scale_offset(self.scale)
+        off = _scale_offset(scale)
+        return Time(v - off if not (isinstance(off, int) and off == 0) else v, scale=scale)
 
     @property
-    def tcb(self): return self
+    def tcb(self): return self._to("tcb")
     @property
-    def utc(self): return self
+    def utc(self): return self._to("utc")
+    @property
+    def tt(self): return self._to("tt")
     @property
     def mjd(self): return self._v
     @property
@@ -519,21 +539,21 @@ class Time:
     def isscalar(self): return not isinstance(self._v, symnp.SymArray)
 
     def __len__(self): return len(self._v)
-    def copy(self): return Time(self._v.copy() if isinstance(self._v, symnp.SymArray) else self._v)
-    def __getitem__(self, k): return Time(self._v[k])
-    def min(self): return Time(symnp.amin(self._v))
-    def max(self): return Time(symnp.amax(self._v))
+    def copy(self): return Time(self._v.copy() if isinstance(self._v, symnp.SymArray) else self._v, scale=self.scale)
+    def __getitem__(self, k): return Time(self._v[k], scale=self.scale)
+    def min(self): return Time(symnp.amin(self._v), scale=self.scale)
+    def max(self): return Time(symnp.amax(self._v), scale=self.scale)
 
     def __sub__(self, o):
         if isinstance(o, Time):
-            return Quantity(self._v - o._v, day)
+            return Quantity(self.tcb._v - o.tcb._v, day)
         if isinstance(o, Quantity):
-            return Time(self._v - o.to_value(day))
+            return Time(self._v - o.to_value(day), scale=self.scale)
         return NotImplemented
 
     def __add__(self, o):
         if isinstance(o, Quantity):
-            return Time(self._v + o.to_value(day))
+            return Time(self._v + o.to_value(day), scale=self.scale)
         return NotImplemented
 
     __radd__ = __add__
@@ -544,10 +564,10 @@ class Time:
             v = symnp.squeeze(v)
             if v.a.ndim == 0:
                 v = v.a[()]
-        return Time(v)
+        return Time(v, scale=self.scale)
 
     def __repr__(self):
-        return "<Time mjd=%r>" % (self._v,)
+        return "<Time %s mjd=%r>" % (self.scale, self._v,)
 
 
 def time_module():
